@@ -1010,8 +1010,11 @@ class ConditionalIdentityGaussianPDF(ConditionalGaussianPDF):
         ln_beta_new = -0.5 * (
             y_Lambda_y + self.Dx * jnp.log(2 * jnp.pi) + self.ln_det_Sigma
         )
+        Lambda_new = self.Lambda
+        if self.R == 1:
+            Lambda_new = jnp.tile(Lambda_new, (y.shape[0], 1, 1))
         factor_new = factor.ConjugateFactor(
-            Lambda=self.Lambda, nu=nu_new, ln_beta=ln_beta_new
+            Lambda=Lambda_new, nu=nu_new, ln_beta=ln_beta_new
         )
         return factor_new
 
@@ -1438,8 +1441,11 @@ class ConditionalIdentityDiagGaussianPDF(ConditionalIdentityGaussianPDF):
         ln_beta_new = -0.5 * (
             y_Lambda_y + self.Dx * jnp.log(2 * jnp.pi) + self.ln_det_Sigma
         )
+        Lambda_new = self.Lambda
+        if self.R == 1:
+            Lambda_new = jnp.tile(Lambda_new, (y.shape[0], 1, 1))
         factor_new = factor.ConjugateFactor(
-            Lambda=self.Lambda, nu=nu_new, ln_beta=ln_beta_new
+            Lambda=Lambda_new, nu=nu_new, ln_beta=ln_beta_new
         )
         return factor_new
 
